@@ -11,6 +11,7 @@ entries of a `hex` line, the payload of a curved edge (kind, validity, tokens of
 import CBV.Model.Common
 import CBV.Gen.Tables
 import CBV.Model.C05
+import CBV.Model.C06Fmt
 
 namespace CBV.C06
 
@@ -419,29 +420,34 @@ structure Decl where
 
 /-! ### numbers -/
 
-def pow10 : Nat → Nat
-  | 0 => 1
-  | n + 1 => 10 * pow10 n
+-- `pow10`, `roundHalfEven`, `round8`, `fmt8`, `vectorTokens`: see `CBV.Model.C06Fmt`
 
-/-- nearest integer to a non-negative rational, ties to even -/
-def roundHalfEven (x : Rat) : Nat :=
-  let fl := x.floor.toNat
-  let fr := x - (fl : Rat)
-  if fr < 1 / 2 then fl else if 1 / 2 < fr then fl + 1 else if fl % 2 = 0 then fl else fl + 1
+/-- the number tokens of `vector_format(position)` in `Vertex.description` -/
+def Corner.coords (c : Corner) : List String := vectorTokens c.pos c.neg
 
-/-- `round(|q| * 10^8)` to the nearest integer, ties to even (what `%.8f` does with the exact
-    binary value) -/
-def round8 (q : Rat) : Nat := roundHalfEven ((if q < 0 then -q else q) * ((pow10 8 : Nat) : Rat))
+/-- What a curved edge prints between its brackets: `Point.description` of one point (arc: the
+    third point), the `vector_format` of every point of `point_array` (spline, polyLine), or
+    tokens that stay opaque (labels of a projected edge). -/
+inductive Payload where
+  | raw (ts : List Tree)
+  | point (p : NumV3)
+  | points (ps : List NumV3)
+  deriving Repr
 
-def pad8 (s : String) : String := "".pushn '0' (8 - s.length) ++ s
+/-- `(x y z)` -/
+def pointTree (p : NumV3) : Tree := .paren ((vectorTokens p.pos p.neg).map .atom)
 
-/-- python `f"{x:.8f}"`; `neg` is the sign bit of `x` -/
-def fmt8 (neg : Bool) (q : Rat) : String :=
-  let n := round8 q
-  (if neg then "-" else "") ++ toString (n / pow10 8) ++ "." ++ pad8 (toString (n % pow10 8))
+/-- the trees after `kind v1 v2`: arcs print `(x y z)`, curves `( (x y z) … (x y z) )` -/
+def Payload.trees : Payload → List Tree
+  | .raw ts => [.paren ts]
+  | .point p => [pointTree p]
+  | .points ps => [.paren (ps.map pointTree)]
 
-def Corner.coords (c : Corner) : List String :=
-  [fmt8 (c.neg.getD 0 false) c.pos.x, fmt8 (c.neg.getD 1 false) c.pos.y, fmt8 (c.neg.getD 2 false) c.pos.z]
+/-- the content of the brackets (what `EEntry.payload` holds) -/
+def Payload.inner : Payload → List Tree
+  | .raw ts => ts
+  | .point p => (vectorTokens p.pos p.neg).map .atom
+  | .points ps => ps.map pointTree
 
 /-! ### vertices: the C05 model with corners as points -/
 
@@ -800,14 +806,28 @@ def rdPre : Rd (Option (String × String)) := do
       let b ← rdStr
       pure (some (a, b))
 
+def rdNumV3 : Rd NumV3 := do
+  let (nx, x) ← rdRat
+  let (ny, y) ← rdRat
+  let (nz, z) ← rdRat
+  pure ⟨⟨x, y, z⟩, [nx, ny, nz]⟩
+
+/-- `R <tokens>` (opaque), `P <x> <y> <z>` (one point), `L <n> <points>` (point list) -/
+def rdPayload : Rd Payload := do
+  let w ← rdWord
+  if w = "R" then .raw <$> rdTrees
+  else if w = "P" then .point <$> rdNumV3
+  else if w = "L" then .points <$> rdList rdNumV3
+  else failure
+
 def rdEdge : Rd EdgeDecl := do
   let repr ← rdStr
   let valid ← rdBool
   let preF ← rdPre
-  let fwd ← rdTrees
+  let fwd ← rdPayload
   let preB ← rdPre
-  let bwd ← rdTrees
-  pure ⟨repr, valid, preF, fwd, preB, bwd⟩
+  let bwd ← rdPayload
+  pure ⟨repr, valid, preF, fwd.inner, preB, bwd.inner⟩
 
 def rdWire : Rd (Nat × Nat × List Tree) := do
   let a ← rdNat
@@ -823,7 +843,8 @@ def rdOp : Rd OpDecl := do
   let bp ← rdOptStr
   let tp ← rdOptStr
   let zone ← rdStr
-  let counts ← rdTrees
+  -- `str(axis.count)` of the three axes: the numbers come from C01–C04, their text is printed here
+  let counts ← natAtoms <$> rdList rdNat
   let simple ← rdBool
   let wg ← rdRepeat rdWire 12
   let edges ← rdRepeat rdEdge 12
